@@ -143,3 +143,28 @@ Theorem C10_default_finder_answers_ok :
 Proof. exact Verif.Properties.C03.C03_finder_default_answers_ok. Qed.
 Print Assumptions C10_default_finder_answers_ok.
 Check Verif.Properties.C03.C03_finder_default_answers_ok.
+
+(* ---------------- nothing hangs (Proofs/SpecTermProofs.v, Proofs/ComposeTerm.v) ----------------
+   (1) the reference search (list-valued and continuation-passing) answers on EVERY tree, text, direction and
+       start offset with fuel term_fuel_any root (the loop counters alone end every loop);
+   (2) on trees whose loop bodies are one-directional (term_ok: every tree exported from the implementation,
+       leg c01-frag) it answers within  term_fuel e root = 1 + depth, loops add minimum + text length + 2;
+   (3) the interpreter model on the program of such a supported2 tree, reference fuel inside the counter range:
+       from some interpreter fuel on, under every stack limit, one execute() call returns a state or
+       ErrBacktrackingStackLimit (never Crash, never out of fuel), and does return when there is no limit.
+   Still NOT covered: the pattern parser on arbitrary bytes (leg c10-robust), and wall-clock bounds (the number
+   of interpreter steps is finite, not small: catastrophic backtracking is a finite computation). *)
+From Verif Require Proofs.SpecTermProofs Proofs.ComposeTerm.
+
+Theorem C10_search_never_hangs :
+  ltac:(let t := type of Verif.Proofs.ComposeTerm.ct_search_never_hangs in exact t).
+Proof. exact Verif.Proofs.ComposeTerm.ct_search_never_hangs. Qed.
+Print Assumptions C10_search_never_hangs.
+Check Verif.Proofs.ComposeTerm.ct_search_never_hangs.
+
+(* C10_compiled_program_never_crashes without its residual hypothesis, with the returned state identified *)
+Theorem C10_compiled_program_returns :
+  ltac:(let t := type of Verif.Properties.C01.C01_exec_total_terminating in exact t).
+Proof. exact Verif.Properties.C01.C01_exec_total_terminating. Qed.
+Print Assumptions C10_compiled_program_returns.
+Check Verif.Properties.C01.C01_exec_total_terminating.
